@@ -636,6 +636,7 @@ func (q *TaskQueue) Filter(filterFn func(task.Task) bool) {
 	defer q.MeasureActionTime("Filter")()
 
 	q.withLock(func() {
+		verifsched.Point("queue.filter.locked", q.Name)
 		newItems := make([]task.Task, 0)
 		for _, t := range q.items {
 			if filterFn(t) {
